@@ -283,6 +283,7 @@ static void run_elem(const char *en) {
     run_vec<amc::FixedCapacityVector<E, NN> >((n + "/FixedCapacityVector<" #NN ">").c_str(), NN, true, sz, false); \
   }
   FCVRUN(1) FCVRUN(2) FCVRUN(3) FCVRUN(7) FCVRUN(15)
+  if (std::is_same<E, int32_t>::value || big) FCVRUN(255)  // N == maximum of the size type
   {
     std::vector<long> sz;
     for (long s = big ? 250 : 253; s <= 255; ++s) sz.push_back(s);
